@@ -3462,7 +3462,8 @@ fn c18_expected(t: &Tok, size: (u16, u16)) -> Option<Vec<String>> {
         Tok::Esc { inter, fin } => {
             if inter.is_empty() {
                 match fin {
-                    b'7' | b'8' | b'=' | b'>' | b'M' | b'c' => Some(vec![]),
+                    // ESC \ is the 7-bit string terminator: never an "unimplemented sequence"
+                    b'7' | b'8' | b'=' | b'>' | b'M' | b'c' | b'\\' => Some(vec![]),
                     b'g' => Some(vec!["EV vbell".to_string()]),
                     _ => Some(vec![format!("EV esc - - {fin}")]),
                 }
@@ -3508,7 +3509,7 @@ fn c18_expected(t: &Tok, size: (u16, u16)) -> Option<Vec<String>> {
             0xfffd => vec!["EV char 65533".to_string()],
             _ => vec![],
         }),
-        Tok::Str(b'P') => Some(vec!["EV esc - - 92".to_string()]),
+        Tok::Str(b'P') => Some(vec![]), // a DCS string and its terminator are silent
         _ => None,
     }
 }
@@ -3615,8 +3616,7 @@ fn run_c18(case: &Case, _seed: u64, rep: &mut Rep) {
                 // inertness
                 let silent_inert = matches!(t, Tok::C0(14 | 15) | Tok::Str(b'P'));
                 if silent_inert {
-                    let allowed = |e: &String| matches!(t, Tok::Str(_)) && e == "EV esc - - 92";
-                    if !events.iter().all(allowed) {
+                    if !events.is_empty() {
                         rep.fail("events", &format!("{at}: P {} produced events {events:?}", hex(b)));
                     }
                     if before != after {
